@@ -10,13 +10,41 @@ static coap_proto_t proto_of(const char *s) {
   return COAP_PROTO_WS;
 }
 
-/* parse exact-size heap copy -> dump or REJECT */
-static void parse_and_dump(FILE *o, coap_proto_t proto, const uint8_t *b, size_t n) {
-  coap_pdu_t *pdu = coap_pdu_init(0, 0, 0, n > 4 ? n : 4);
-  if (!pdu) { fputs("NOPDU", o); return; }
-  if (coap_pdu_parse(proto, b, n, pdu)) dump_pdu(o, pdu);
-  else fputs("REJECT", o);
+/* parse exact-size heap copy -> dump or REJECT.
+ * The same bytes are parsed twice: into a fresh PDU and into a PDU that already holds another
+ * parsed message (token, option, payload) - coap_pdu_parse must report the same thing whatever the
+ * PDU held before (the library's own tests reuse PDUs this way).  A difference is appended as
+ * " REUSE[...]", which no model output contains. */
+static int parse_into(char **res, coap_proto_t proto, const uint8_t *b, size_t n, int reuse) {
+  static const uint8_t decoy_udp[] = {0x44, 0x02, 0x12, 0x34, 0xa1, 0xa2, 0xa3, 0xa4, 0xb1, 'x', 0xff, 'p', 'q', 'r'};
+  static const uint8_t decoy_tcp[] = {0x64, 0x02, 0xa1, 0xa2, 0xa3, 0xa4, 0xb1, 'x', 0xff, 'p', 'q', 'r'};
+  static const uint8_t decoy_ws[] = {0x04, 0x02, 0xa1, 0xa2, 0xa3, 0xa4, 0xb1, 'x', 0xff, 'p', 'q', 'r'};
+  size_t sz = 0;
+  FILE *m = open_memstream(res, &sz);
+  coap_pdu_t *pdu = coap_pdu_init(0, 0, 0, n > 16 ? n : 16);
+  if (!pdu) { fputs("NOPDU", m); fclose(m); return 0; }
+  if (reuse) {
+    int ok;
+    if (proto == COAP_PROTO_UDP) ok = coap_pdu_parse(proto, decoy_udp, sizeof(decoy_udp), pdu);
+    else if (proto == COAP_PROTO_TCP) ok = coap_pdu_parse(proto, decoy_tcp, sizeof(decoy_tcp), pdu);
+    else ok = coap_pdu_parse(proto, decoy_ws, sizeof(decoy_ws), pdu);
+    if (!ok) fputs("DECOYREJECT ", m);
+  }
+  if (coap_pdu_parse(proto, b, n, pdu)) dump_pdu(m, pdu);
+  else fputs("REJECT", m);
   coap_delete_pdu(pdu);
+  fclose(m);
+  return 1;
+}
+
+static void parse_and_dump(FILE *o, coap_proto_t proto, const uint8_t *b, size_t n) {
+  char *fresh = NULL, *reused = NULL;
+  parse_into(&fresh, proto, b, n, 0);
+  parse_into(&reused, proto, b, n, 1);
+  fputs(fresh, o);
+  if (strcmp(fresh, reused)) fprintf(o, " REUSE[%s]", reused);
+  free(fresh);
+  free(reused);
 }
 
 static void c01(void) {
@@ -76,6 +104,16 @@ static void c03(void) {
   free(b);
 }
 
+/* psize <proto> <bytes>: coap_pdu_parse_size on the header + token-extension bytes */
+static void psize(void) {
+  size_t n;
+  uint8_t *b = bytes_of_tok(vtok[2], &n);
+  coap_proto_t proto = proto_of(vtok[1]);
+  if (n == 0 || coap_pdu_parse_header_size(proto, b) > n) puts("short");
+  else printf("%zu\n", coap_pdu_parse_size(proto, b, n));
+  free(b);
+}
+
 static void optparse(void) {
   size_t n;
   uint8_t *b = bytes_of_tok(vtok[1], &n);
@@ -120,12 +158,21 @@ static void optrt(void) {
   free(buf);
 }
 
+static void quiet_log(coap_log_t level, const char *message) { (void)level; (void)message; }
+
 int main(void) {
-  coap_set_log_level(COAP_LOG_EMERG);
+  /* VERIF_LOG_DEBUG=1: every log statement is formatted (the debug dump of a malformed option
+   * list walks the PDU a second time), the text is discarded */
+  if (getenv("VERIF_LOG_DEBUG")) {
+    coap_set_log_handler(quiet_log);
+    coap_set_log_level(COAP_LOG_DEBUG);
+  } else
+    coap_set_log_level(COAP_LOG_EMERG);
   while (next_case(stdin)) {
     if (vntok == 0) { puts(""); continue; }
     if (!strcmp(vtok[0], "c01")) c01();
-    else if (!strcmp(vtok[0], "c03")) c03();
+    else if (!strcmp(vtok[0], "c03") || !strcmp(vtok[0], "c02")) c03();
+    else if (!strcmp(vtok[0], "psize")) psize();
     else if (!strcmp(vtok[0], "optparse")) optparse();
     else if (!strcmp(vtok[0], "optenc")) optenc();
     else if (!strcmp(vtok[0], "optrt")) optrt();
